@@ -1,6 +1,7 @@
 package rlp
 
 import (
+	"math/big"
 	"github.com/holiman/uint256"
 )
 
@@ -193,7 +194,8 @@ func zzH_C01_head_codec() {
 func zzH_C01_u256() {
 	b := zzNondetBytes(zzBound("N"))
 	s, sr := zzStream(b)
-	var v uint256.Int
+	// the target is reused: whatever it held before must not survive a successful decode
+	v := uint256.Int{zzNondetU64(), zzNondetU64(), zzNondetU64(), zzNondetU64()}
 	err := s.ReadUint256(&v)
 	// compare with the raw string splitter
 	content, rest, serr := SplitString(b)
@@ -219,6 +221,32 @@ func zzH_C01_u256() {
 	want := new(uint256.Int).SetBytes32(be[:])
 	zzAssert(v == *want, "value is the big-endian content")
 	zzObserve("v0", v[0])
+}
+
+// decodeBigInt (arbitrary-size integers): accepts exactly the strings without a leading zero
+// that are not a wrapped single byte, and yields their big-endian value - also for contents
+// longer than the 32-byte scratch buffer.
+func zzH_C01_bigint() {
+	b := zzNondetBytes(zzBound("BN"))
+	s, sr := zzStream(b)
+	x := zzNondetBig(64) // reused target
+	err := s.decodeBigInt(x)
+	content, rest, serr := SplitString(b)
+	if err != nil {
+		zzReach("rejected")
+		if serr == nil {
+			zzAssert(len(content) > 0 && content[0] == 0, "decodeBigInt rejects a well-formed string only for a leading zero")
+		}
+		return
+	}
+	zzReach("accepted")
+	zzAssert(serr == nil, "raw splitter accepts what decodeBigInt accepts")
+	zzAssert(len(content) == 0 || content[0] != 0, "accepted integer has no leading zero")
+	zzAssert(zzBigEq(x, new(big.Int).SetBytes(content)), "value is the big-endian content")
+	zzAssert(zzBytesEq(*sr, rest), "stream consumed exactly the integer")
+	if len(content) > 32 {
+		zzReach("long")
+	}
 }
 
 func zzH_C01_u256_forward() {
